@@ -379,14 +379,26 @@ func decodeEvaluator(b *evalgen.BodyCase, expand bool) evaluator {
 // nestSameBody wraps every entry of the flat object spec in one or two levels of specs that decode from the
 // *same* body (tuple, nested object, validation wrapper): what is needed from the scope is unchanged, but the
 // variable-needing specs now sit two or three levels below the root.
-func nestSameBody(r *lib.Rand, spec hcldec.Spec) hcldec.Spec {
+func nestSameBody(r *lib.Rand, spec hcldec.Spec, scopeNames []string) hcldec.Spec {
 	o, ok := spec.(hcldec.ObjectSpec)
 	if !ok {
 		return spec
 	}
 	pass := func(cty.Value) hcl.Diagnostics { return nil }
 	wrap := func(x hcldec.Spec) hcldec.Spec {
-		switch r.Intn(4) {
+		switch r.Intn(5) {
+		case 4:
+			// a transform over the decoded value without a context of its own: its expression may use the
+			// value (v0) only — a reference to anything else must stay an error whatever the caller's scope
+			// holds, because the decoder does not report the expression's variables as needed
+			if len(scopeNames) == 0 {
+				return hcldec.TupleSpec{x}
+			}
+			e, diags := hclsyntax.ParseExpression([]byte("[v0, "+scopeNames[r.Intn(len(scopeNames))]+"]"), "", hcl.InitialPos)
+			if diags.HasErrors() {
+				return hcldec.TupleSpec{x}
+			}
+			return &hcldec.TransformExprSpec{Wrapped: x, Expr: e, VarName: "v0"}
 		case 0:
 			return hcldec.TupleSpec{x}
 		case 1:
@@ -486,7 +498,7 @@ func checkBody(cx *lib.Ctx, r *lib.Rand, b *evalgen.BodyCase, mode string) {
 	case "hcldec":
 		probes = append(probes, probe{"hcldec.Variables", hcldec.Variables(b.Body, spec), decodeEvaluator(b, false), evalgen.BodyFreeRoots(b.Tree, false), "hcldec-variables"})
 	case "hcldec-nested":
-		nested := nestSameBody(r.Fork(), spec)
+		nested := nestSameBody(r.Fork(), spec, b.Scope.Names())
 		probes = append(probes, probe{"hcldec.Variables (same-body specs nested)", hcldec.Variables(b.Body, nested), decodeEvaluatorSpec(b, false, nested), evalgen.BodyFreeRoots(b.Tree, false), "hcldec-variables-nested"})
 	default:
 		probes = append(probes,
